@@ -263,13 +263,13 @@ func c05Closure(schemas ast.Schemas, pkg string, allowed []string) map[string]st
 		one := ast.NewSchema(o.SelfRef.ReferredPkg, ast.SchemaMeta{})
 		one.AddObject(o)
 		for _, r := range irx.SchemaRefs(ast.Schemas{one}) {
-			if r.Kind == "self_ref" {
+			if r.Kind == "self_ref" || r.Kind == "mapping" {
+				// a mapping target is always one of the union's branches, which
+				// are references themselves; resolving the bare name in every
+				// branch package would pull in unrelated same-named objects.
 				continue
 			}
 			pkgs := []string{r.Pkg}
-			if r.Kind == "mapping" {
-				pkgs = r.AltPkgs
-			}
 			for _, p := range pkgs {
 				t, ok := schemas.LocateObject(p, r.Name)
 				if !ok {
